@@ -13,7 +13,7 @@ import (
 
 func init() {
 	register(
-		&Rule{ID: "R03.1", Props: []string{"C03"}, Floor: 3, Title: "allocate(): every metric entering the current/candidate/priority sets passed the exclusion-list test; current holders are recognised first, then priority peers", Run: r031},
+		&Rule{ID: "R03.1", Props: []string{"C03", "C04"}, Floor: 3, Title: "allocate(): every metric entering the current/candidate/priority sets passed the exclusion-list test; current holders are recognised first, then priority peers", Run: r031},
 		&Rule{ID: "R03.2", Props: []string{"C03"}, Floor: 5, Title: "candidate provenance: the three sets are filled only from the monitor's latest valid metrics and handed to obtainAllocations/the allocator in the right slots; the result is built from them only", Run: r032},
 		&Rule{ID: "R03.3", Props: []string{"C03", "C04"}, Floor: 2, Title: "replication factors are validated (setupPin) before every allocation", Run: r033},
 		&Rule{ID: "R03.4", Props: []string{"C03"}, Floor: 2, Title: "replication factor -1 yields an empty, non-nil allocation list without consulting monitor or allocator; 0/0 is refused", Run: r034},
